@@ -49,7 +49,9 @@ SESS_ASSUME = ["the OS filesystem is seen through a double that enumerates direc
                "mutations, reports 4096 as the size of directories and two fixed, distinct instants as the change and access time of "
                "every file (harness/dfs.go); the model assumes the same",
                "no symlinks inside the modelled world (symlink cases are judged by the direct oracle only)",
-               "strings.ToLower is modelled on ASCII only"]
+               "strings.ToLower is modelled on ASCII only",
+               "lseek refuses offsets beyond the filesystem's limit (fs_max_offset: measured on the filesystem of the harness' worlds on every run) and "
+               "negative ones; no file is larger than that limit"]
 
 BASE_PARTIAL = []
 
@@ -92,8 +94,9 @@ PROPS = {
         "rule": SESS_RULE, "assumptions": SESS_ASSUME,
         "partial": ["generated images and decrypted views as the opened object are covered by C09/C10 (reader contract); "
                     "sparse files past 4 GiB are exercised by the direct oracle only"],
-        "level_text": "Theorems C02_open/C02_read/C02_critical/C02_interleave/C02_slice_spec over the session model: for every content, offset and "
-                      "limit the ordinary read announces the exact count and sends exactly the bytes [off, min(off+n,size)), the critical read sends them raw "
+        "level_text": "Theorems C02_open/C02_read/C02_critical/C02_interleave/C02_slice_spec/C02_offset_refused over the session model: for every content, "
+                      "every offset the filesystem can address (fs_max_offset, measured by the translator; beyond it and for negative offsets the connection "
+                      "ends without a byte) and every limit the ordinary read announces the exact count and sends exactly the bytes [off, min(off+n,size)), the critical read sends them raw "
                       "and ends the connection after a correct prefix when short; other requests never disturb the opened object.",
     },
     "C03": {
